@@ -2163,7 +2163,11 @@ class Parameters:
             refnames, pnames = zip(*pnames)
             self_.self._param__private.ref_watchers.append((
                 refnames,
-                owner.param._watch(self_._sync_refs, list(set(pnames)), precedence=-1)
+                # after the internal (precedence -1) watchers with which
+                # reactive expressions invalidate their caches: in a batch
+                # changing two parameters of `owner` the expression would
+                # otherwise be resolved before all of it is invalidated
+                owner.param._watch(self_._sync_refs, list(set(pnames)), precedence=-0.5)
             ))
 
     def _update_ref(self_, name, ref):
